@@ -22,6 +22,8 @@ MODULES = {
     "hist_c03": ("src/histogram.rs", K / "hist_c03.rs"),
     "hist_c02": ("src/histogram.rs", K / "hist_c02.rs"),
     "hist_c18": ("src/histogram.rs", K / "hist_c18.rs"),
+    "vec_c05": ("src/vec.rs", K / "vec_c05.rs"),
+    "desc_c09": ("src/desc.rs", K / "desc_c09.rs"),
     "atomic_c01": ("src/atomic64.rs", K / "atomic_c01.rs"),
     "counter_c01": ("src/counter.rs", K / "counter_c01.rs"),
     "gauge_c11": ("src/gauge.rs", K / "gauge_c11.rs"),
@@ -30,6 +32,44 @@ MODULES = {
 CRATE_MODULES = {
     "__vsup": K / "vsup.rs",
     "__venv": K / "venv.rs",
+    "__vcoll": K / "vcoll.rs",
+    "__vrec": K / "vrec.rs",
+}
+
+# `use` lines redirected to the collections contract shim (profile maps=True)
+MAP_REDIRECTS = [
+    ("src/counter.rs", "use std::collections::HashMap;", "use crate::__vcoll::HashMap;"),
+    ("src/desc.rs", "use std::collections::{BTreeSet, HashMap};", "use crate::__vcoll::{BTreeSet, HashMap};"),
+    ("src/histogram.rs", "use std::collections::HashMap;", "use crate::__vcoll::HashMap;"),
+    ("src/metrics.rs", "use std::collections::HashMap;", "use crate::__vcoll::HashMap;"),
+    ("src/vec.rs", "use std::collections::HashMap;", "use crate::__vcoll::HashMap;"),
+    ("src/registry.rs", "use std::collections::btree_map::Entry as BEntry;", "use crate::__vcoll::btree_map::Entry as BEntry;"),
+    ("src/registry.rs", "use std::collections::hash_map::Entry as HEntry;", "use crate::__vcoll::hash_map::Entry as HEntry;"),
+    ("src/registry.rs", "use std::collections::{BTreeMap, HashMap, HashSet};", "use crate::__vcoll::{BTreeMap, HashMap, HashSet};"),
+    ("src/pulling_gauge.rs", "use std::{collections::HashMap, fmt, sync::Arc};", "use std::{fmt, sync::Arc};\nuse crate::__vcoll::HashMap;"),
+]
+# functional `format!` call sites replaced (exact text) by contract functions in kani/vsup.rs:
+# std's formatting machinery does not terminate under CBMC even on concrete arguments (probed:
+# build_fq_name("a","b","c") > 5 min), so `format!("{}_{}", a, b)` is replaced by its contract
+# a ++ "_" ++ b.  All OTHER format! calls build error messages and are stubbed to "".
+FMT_REDIRECTS = [
+    ("src/desc.rs", 'format!("${}", label_name)', "crate::__vsup::fmt_dollar(label_name)"),
+    ("src/metrics.rs", 'format!("{}_{}_{}", namespace, subsystem, name)', "crate::__vsup::fmt_join3(namespace, subsystem, name)"),
+    ("src/metrics.rs", 'format!("{}_{}", namespace, name)', "crate::__vsup::fmt_join2(namespace, name)"),
+    ("src/metrics.rs", 'format!("{}_{}", subsystem, name)', "crate::__vsup::fmt_join2(subsystem, name)"),
+    ("src/registry.rs", 'format!("{}_{}", namespace, m.name())', "crate::__vsup::fmt_join2(namespace, m.name())"),
+]
+FMT_ASSUMPTION = "std format! is replaced by its contract at the 5 call sites whose result is used functionally (desc.rs `format!(\"${}\", label_name)` -> \"$\" ++ name; metrics.rs build_fq_name's three joins and registry.rs gather's prefix join -> a ++ \"_\" ++ b) by exact-text rewrite in the scratch copy; every other format! builds an error message and is stubbed to the empty string. Reason: std::fmt::write does not terminate under CBMC even on concrete arguments (measured > 5 min)"
+MAPS_ASSUMPTION = "std HashMap/HashSet/BTreeMap/BTreeSet are replaced by the contract shim /verif/kani/vcoll.rs (functional map with key equality; HashMap iteration order is a nondeterministic permutation at every iteration = every hash seed; BTree* iterate in key order) through a mechanical rewrite of the `use std::collections::...` lines of counter.rs, desc.rs, histogram.rs, metrics.rs, vec.rs, registry.rs, pulling_gauge.rs in the scratch copy; the std implementations themselves are assumed to meet that contract"
+
+# Kani function contracts inserted on the real functions (attribute lines placed before the fn)
+CONTRACTS = {
+    "charset": [
+        ("src/desc.rs", r"^fn matches_charset_without_colon\(c: char\) -> bool",
+         "#[cfg_attr(kani, kani::ensures(|r: &bool| *r == (('a' <= c && c <= 'z') || ('A' <= c && c <= 'Z') || c == '_')))]"),
+        ("src/desc.rs", r"^fn matches_charset_with_colon\(c: char\) -> bool",
+         "#[cfg_attr(kani, kani::ensures(|r: &bool| *r == (('a' <= c && c <= 'z') || ('A' <= c && c <= 'Z') || c == '_' || c == ':')))]"),
+    ],
 }
 
 
@@ -89,6 +129,37 @@ PLAN = {
         functions=[],
         assumptions=["clock contract assumed: std::time::Instant::now returns some instant; Instant::saturating_duration_since returns SOME Duration (any non-negative span); both are stubs", "moving a timer to another thread does not change its state (ownership); no separate obligation", "nightly-only coarse timers are not built (feature off)"],
     ),
+    "C09": dict(
+        title="Only well-formed, pairwise distinct names reach an exposed sample",
+        level="proof",
+        maps=True,
+        modules=["desc_c09"],
+        crate_modules=["__vrec"],
+        contract_sets=["charset"],
+        verus=[],
+        functions=[],
+        assumptions=[MAPS_ASSUMPTION, FMT_ASSUMPTION],
+    ),
+    "C05": dict(
+        title="A metric vector keeps exactly one child per distinct label-value tuple",
+        level="proof",
+        maps=True,
+        modules=["vec_c05"],
+        crate_modules=["__vrec"],
+        verus=["c05_frame_injective.rs"],
+        functions=[],
+        assumptions=[MAPS_ASSUMPTION, FMT_ASSUMPTION, "FnvHasher is replaced by a byte-stream recorder in the hash-level harnesses; A1: the 64-bit FNV-1a result is a function of the stream and distinct streams do not collide", "vector-logic harnesses instantiate MetricVecCore with a light builder defined in the harness (children remember what they were built from); the real builders' label contract (make_label_pairs) is a separate obligation"],
+    ),
+    "C10": dict(
+        title="Concurrent use of a metric vector is linearizable",
+        level="proof",
+        maps=True,
+        modules=["vec_c05"],
+        crate_modules=["__vrec"],
+        verus=[],
+        functions=[],
+        assumptions=[MAPS_ASSUMPTION, FMT_ASSUMPTION, "linearizability by lock composition: parking_lot::RwLock gives mutual exclusion (A1) and guards are the only access path to the map (Rust typing); what is machine-checked is the sequential contract of every critical section from an arbitrary map state and the lock discipline (each operation's effect inside exactly one write-guard section, read-side fast path effect-free, no guard held on return, no acquisition while holding). No interleaving is explored."],
+    ),
     "C08": dict(
         title="Bucket counts follow 'value <= upper bound' for every input",
         level="proof",
@@ -112,7 +183,13 @@ def inject_spec(pid: str, features: str = "plain"):
         rel, f = MODULES[m]
         spec["modules"].setdefault(rel, []).append(("__v_" + m, f))
     spec["redirects"] = list(p.get("redirects", []))
+    if p.get("maps"):
+        spec["crate_modules"].append(("__vcoll", CRATE_MODULES["__vcoll"]))
+        spec["redirects"] += MAP_REDIRECTS
+        spec["replacements"] = list(FMT_REDIRECTS)
     spec["contracts"] = list(p.get("contracts", []))
+    for cs in p.get("contract_sets", []):
+        spec["contracts"] += CONTRACTS[cs]
     spec["crate_attrs"] = list(p.get("crate_attrs", []))
     return spec
 
